@@ -501,6 +501,8 @@ class ApplyMixin:
             stack.pop()
 
     def _apply_contract_body(self, c, fi, env, spec_fr, st, fr, node):
+        if getattr(fr, "in_comp", 0) > 0 and c.modifies and not c.opts.get("deterministic") and fr.kind != "spec":
+            raise Untranslatable(f"call of {c.key.split('::')[-1]} (which modifies the heap) inside a comprehension")
         pre_st = St(st.guards, st.facts, env, st.heap, st.eff, st.epoch)
         # preconditions are obligations of the caller
         n_pre = 0
